@@ -1,0 +1,106 @@
+// +build verif
+
+package consensus
+
+// Verification hooks (build tag "verif"): thin exported wrappers around
+// unexported pieces that the /verif harness needs to reach. Add-only; with
+// the tag off this file is not compiled.
+
+import (
+	"github.com/bbva/qed/crypto/hashing"
+	"github.com/hashicorp/raft"
+)
+
+// VerifForceSnapshot takes a Raft snapshot now (and so compacts the log
+// according to TrailingLogs), like upstream's own tests do from inside the
+// package.
+func (n *RaftNode) VerifForceSnapshot() error {
+	return n.raft.Snapshot().Error()
+}
+
+// VerifTransferLeadership makes the leader hand leadership over.
+func (n *RaftNode) VerifTransferLeadership() error {
+	return n.leaveLeadership()
+}
+
+// VerifState reports the FSM's last applied raft index, the balloon version
+// recorded with it, and the balloon's next version.
+func (n *RaftNode) VerifState() (index, stateVersion, balloonVersion uint64) {
+	st := n.state
+	return st.Index, st.BalloonVersion, n.balloon.Version()
+}
+
+// VerifRaftIndexes reports the first and last index held by the raft log
+// store and raft's applied index.
+func (n *RaftNode) VerifRaftIndexes() (first, last, applied uint64) {
+	first, _ = n.raftLog.FirstIndex()
+	last, _ = n.raftLog.LastIndex()
+	return first, last, n.raft.AppliedIndex()
+}
+
+// VerifRaftState is raft's own view of the node's role.
+func (n *RaftNode) VerifRaftState() string { return n.raft.State().String() }
+
+// VerifLogStore is the replicated-log store's public surface.
+type VerifLogStore interface {
+	raft.LogStore
+	raft.StableStore
+	Close() error
+}
+
+// VerifNewRaftLog opens the (unexported) RocksDB-backed log store.
+func VerifNewRaftLog(path string, noSync bool) (VerifLogStore, error) {
+	return newRaftLogOpts(raftLogOptions{Path: path, NoSync: noSync, EnableStatistics: true})
+}
+
+// VerifEncodeAddCommand encodes an add-events command as the proposer does.
+func VerifEncodeAddCommand(digests []hashing.Digest) ([]byte, error) {
+	cmd := newCommand(addEventCommandType)
+	if err := cmd.encode(digests); err != nil {
+		return nil, err
+	}
+	return cmd.data, nil
+}
+
+// VerifDecodeAddCommand decodes it as the FSM does.
+func VerifDecodeAddCommand(data []byte) ([]hashing.Digest, error) {
+	cmd := newCommandFromRaft(data)
+	var out []hashing.Digest
+	if err := cmd.decode(&out); err != nil {
+		return nil, err
+	}
+	return out, nil
+}
+
+// VerifEncodeFSMState / VerifDecodeFSMState: the persisted FSM state codec.
+func VerifEncodeFSMState(index, version uint64) ([]byte, error) {
+	return (&fsmState{index, version}).encode()
+}
+
+func VerifDecodeFSMState(b []byte) (index, version uint64, err error) {
+	var s fsmState
+	err = s.decode(b)
+	return s.Index, s.BalloonVersion, err
+}
+
+// VerifEncodeVersionMetadata / VerifDecodeVersionMetadata: write-batch metadata codec.
+func VerifEncodeVersionMetadata(prev, next uint64) ([]byte, error) {
+	return (&VersionMetadata{prev, next}).encode()
+}
+
+func VerifDecodeVersionMetadata(b []byte) (prev, next uint64, err error) {
+	var m VersionMetadata
+	err = m.decode(b)
+	return m.PreviousVersion, m.NewVersion, err
+}
+
+// VerifEncodeFSMSnapshot / VerifDecodeFSMSnapshot: the raft snapshot body codec.
+func VerifEncodeFSMSnapshot(lastSeqNum, version uint64) ([]byte, error) {
+	return (&fsmSnapshot{lastSeqNum, version}).encode()
+}
+
+func VerifDecodeFSMSnapshot(b []byte) (lastSeqNum, version uint64, err error) {
+	var s fsmSnapshot
+	err = s.decode(b)
+	return s.LastSeqNum, s.BalloonVersion, err
+}
